@@ -70,6 +70,19 @@ class Contract(object):
   def fresh_out(self, *args, **kw):
     raise NotImplementedError
 
+  def view(self, out, *args, **kw):
+    """What the postcondition talks about, computed from the real function's return value."""
+    return out
+
+  def raised(self, exc, *args, **kw):
+    """The real function raised `exc` during symbolic execution: return the output view that
+    stands for it, or re-raise (default) when raising is not part of the contract."""
+    raise exc
+
+  def native_view(self, nat):
+    """Output view from the native runner's result record."""
+    return nat['ok']
+
   # -- plumbing
   @property
   def key(self):
@@ -238,7 +251,14 @@ def verify(contract, make_args, cfg_label='', loop_mode=None, timeout_ms=None, e
       for name, b in extra_pre(*args, **kw):
         c.assume(b, 'pre+:' + name)
     with stubbed(except_keys=(contract.key,), only=inline_only):
-      out = real(*args, **kw)
+      try:
+        out = real(*args, **kw)
+      except (ValueError, TypeError, IndexError, KeyError, AssertionError, ZeroDivisionError) as e:
+        if isinstance(e, (tfc.NoContract, E.SymbolicValueError)):
+          raise
+        out = contract.raised(e, *args, **kw)
+      else:
+        out = contract.view(out, *args, **kw)
     holder['out'] = out
     return contract.post(out, *args, **kw)
 
